@@ -293,6 +293,8 @@ def check(ctx):
     _broadcast(ctx, rep)
     from . import c01b
     c01b.layout_rules(rep, model, ctx.tier == 'thorough')
+    c01b.guard_rules(rep, model)
+    c01b.pointwise_rules(rep, model)
     return rep
 
 
@@ -439,7 +441,10 @@ def _blas_guard(ctx, rep):
                   'contiguous arrays with int32 sizes (%d array tuples)'
                   % n)
     except Undecided as e:
-        rep.undecided('R1b', cons, str(e), NPY, fn.lineno)
+        # the finite model does not cover this formulation of the guard;
+        # R1c (c01b.guard_rules) interprets it on real NumPy dtypes
+        rep.diagnostic('R1b finite model not applicable (%s); decided by '
+                       'R1c' % e)
     # the ravel order is applied to all three arrays alike
     impl = ctx.func(NPY, '_lincomb_impl')
     orders = set()
@@ -688,23 +693,7 @@ def _delegation(ctx, rep, model):
     else:
         rep.violation('R4', 'NumpyTensorSpace._lincomb', 'does not forward '
                       '%s to _lincomb_impl' % params, NPY, fn.lineno)
-    for meth, uf in (('_multiply', 'np.multiply'), ('_divide', 'np.divide')):
-        fn = ctx.method(NPY, 'NumpyTensorSpace', meth)
-        calls = [c for c in ast.walk(fn) if isinstance(c, ast.Call)
-                 and ast.unparse(c.func) == uf]
-        ok = False
-        if len(calls) == 1:
-            c = calls[0]
-            a = [ast.unparse(x) for x in c.args]
-            o = [ast.unparse(k.value) for k in c.keywords if k.arg == 'out']
-            ok = a == ['x1.data', 'x2.data'] and o == ['out.data']
-        if ok:
-            rep.holds('R4', 'NumpyTensorSpace.' + meth, '%s(x1, x2, out=out)'
-                      % uf)
-        else:
-            rep.violation('R4', 'NumpyTensorSpace.' + meth, 'is not '
-                          '%s(x1.data, x2.data, out=out.data)' % uf, NPY,
-                          fn.lineno)
+    # NumpyTensorSpace._multiply / _divide: evaluated (c01b.pointwise_rules)
     # LinearSpace.lincomb / multiply / divide: membership checks dominate
     from ..paths import walk_paths, strip_doc
     for meth, prim, operands in (
